@@ -610,25 +610,25 @@ def walk_futures(repo):
     return captures, steps, muts
 
 
-def arm64_registers(repo):
-    """REGISTERS and the alias arms of memoize_register of `impl CpuContext for md::CONTEXT_ARM64` (minidump/src/context.rs):
+def arm64_registers(repo, ctx="CONTEXT_ARM64", unwinder="minidump-unwind/src/arm64.rs"):
+    """REGISTERS and the alias arms of memoize_register of `impl CpuContext for md::<ctx>` (minidump/src/context.rs):
     which STACK CFI register names a walker accepts and which of them are two names of one register"""
     src = strip_comments(open(os.path.join(repo, "minidump/src/context.rs")).read())
-    m = re.search(r"impl\s+CpuContext\s+for\s+md::CONTEXT_ARM64\s*\{", src)
+    m = re.search(r"impl\s+CpuContext\s+for\s+md::" + ctx + r"\s*\{", src)
     if not m:
-        die("impl CpuContext for md::CONTEXT_ARM64 not found in minidump/src/context.rs")
+        die("impl CpuContext for md::%s not found in minidump/src/context.rs" % ctx)
     body = src[m.end() - 1:match_close(blank_strings(src), m.end() - 1) + 1]
     r = re.search(r"const\s+REGISTERS\s*:\s*&'static\s*\[&'static\s+str\]\s*=\s*&\[([^\]]*)\]", body)
     if not r:
-        die("CONTEXT_ARM64: const REGISTERS not found")
+        die(ctx + ": const REGISTERS not found")
     regs = re.findall(r'"([^"]+)"', r.group(1))
     f = re.search(r"fn\s+memoize_register\s*\(\s*&self\s*,\s*reg\s*:\s*&str\s*\)\s*->\s*Option<&'static\s+str>\s*\{", body)
     if not f:
-        die("CONTEXT_ARM64: fn memoize_register(&self, reg: &str) -> Option<&'static str> not found")
+        die(ctx + ": fn memoize_register(&self, reg: &str) -> Option<&'static str> not found")
     fb = norm(body[f.end() - 1:match_close(blank_strings(body), f.end() - 1) + 1])
     mm = re.fullmatch(r'\{matchreg\{((?:"[^"]+"=>Some\("[^"]+"\),)*)_=>default_memoize_register\(Self::REGISTERS,reg\),?\}\}', fb)
     if not mm:
-        die("CONTEXT_ARM64::memoize_register is not `match reg { \"a\" => Some(\"b\"), .., _ => default_memoize_register(Self::REGISTERS, reg) }`: " + fb[:200])
+        die(ctx + "::memoize_register is not `match reg { \"a\" => Some(\"b\"), .., _ => default_memoize_register(Self::REGISTERS, reg) }`: " + fb[:200])
     aliases = re.findall(r'"([^"]+)"=>Some\("([^"]+)"\)', mm.group(1))
     d = re.search(r"fn\s+default_memoize_register\s*\([^)]*\)\s*->\s*Option<&'static\s+str>\s*\{", src)
     if not d:
@@ -636,13 +636,13 @@ def arm64_registers(repo):
     db = norm(src[d.end() - 1:match_close(blank_strings(src), d.end() - 1) + 1])
     if db != "{letidx=registers.iter().position(|val|*val==reg)?;Some(registers[idx])}":
         die("default_memoize_register is not `let idx = registers.iter().position(|val| *val == reg)?; Some(registers[idx])`: " + db[:200])
-    usrc = strip_comments(open(os.path.join(repo, "minidump-unwind/src/arm64.rs")).read())
+    usrc = strip_comments(open(os.path.join(repo, unwinder)).read())
     cs = re.search(r"const\s+CALLEE_SAVED_REGS\s*:\s*&\[&str\]\s*=\s*&\[([^\]]*)\]", usrc)
     if not cs:
-        die("minidump-unwind/src/arm64.rs: const CALLEE_SAVED_REGS: &[&str] not found")
+        die(unwinder + ": const CALLEE_SAVED_REGS: &[&str] not found")
     saved = re.findall(r'"([^"]+)"', cs.group(1))
     if "CfiStackWalker::from_ctx_and_args(ctx,args,callee_forwarded_regs)" not in norm(usrc):
-        die("arm64.rs get_caller_by_cfi no longer builds its walker with CfiStackWalker::from_ctx_and_args(ctx, args, callee_forwarded_regs)")
+        die(unwinder + " get_caller_by_cfi no longer builds its walker with CfiStackWalker::from_ctx_and_args(ctx, args, callee_forwarded_regs)")
     return regs, aliases, saved
 
 
@@ -758,6 +758,7 @@ def main():
         die("no future combinator found (the extraction is broken: into_process_state joins the per-thread walks)")
     arms = lsb_aliases(repo)
     a64_regs, a64_aliases, a64_saved = arm64_registers(repo)
+    arm_regs, arm_aliases, arm_saved = arm64_registers(repo, "CONTEXT_ARM", "minidump-unwind/src/arm.rs")
     await_callees, unwinder_async_fns = walk_awaits(repo)
     o = ["(* GENERATED by translate/c13_sites.py from minidump-processor, minidump-unwind and breakpad-symbols sources — do not edit. *)",
          "From Coq Require Import List String ZArith.", "Import ListNotations.", "Open Scope string_scope.", "",
@@ -804,6 +805,13 @@ def main():
     o.append("Definition arm64_callee_saved : list string := [%s]." % "; ".join(coq_str(r) for r in a64_saved))
     o.append("Definition arm64_callee_saved_bytes : list (list Z) := [%s]." % "; ".join(zb0(r) for r in a64_saved))
     o.append("Definition arm64_alias_bytes : list (list Z * list Z) := [%s]." % "; ".join("(%s, %s)" % (zb0(a), zb0(b)) for a, b in a64_aliases))
+    o.append("(* the same for md::CONTEXT_ARM / minidump-unwind/src/arm.rs *)")
+    o.append("Definition arm_registers : list string := [%s]." % "; ".join(coq_str(r) for r in arm_regs))
+    o.append("Definition arm_aliases : list (string * string) := [%s]." % "; ".join("(%s, %s)" % (coq_str(a), coq_str(b)) for a, b in arm_aliases))
+    o.append("Definition arm_callee_saved : list string := [%s]." % "; ".join(coq_str(r) for r in arm_saved))
+    o.append("Definition arm_register_bytes : list (list Z) := [%s]." % "; ".join(zb0(r) for r in arm_regs))
+    o.append("Definition arm_alias_bytes : list (list Z * list Z) := [%s]." % "; ".join("(%s, %s)" % (zb0(a), zb0(b)) for a, b in arm_aliases))
+    o.append("Definition arm_callee_saved_bytes : list (list Z) := [%s]." % "; ".join(zb0(r) for r in arm_saved))
     o.append("")
     o.append("(* the same table as byte strings (what the extracted model runs on) *)")
     o.append("Definition lsb_alias_bytes : list (list (list Z) * list Z) := [")
